@@ -196,7 +196,14 @@ def replay(m):
         src = pr(case['prog'], ns, enc, [0])
         n += 1
         try:
-            r = HTML(src, encoding=enc)(**ns)
+            if enc == 'utf-8':
+                # UTF-8 is the default: not giving an encoding, or giving an empty one, means the same
+                form = (m['tid'] + n) % 4
+                t = HTML(src) if form == 0 else HTML(src, encoding=None) if form == 1 else HTML(src, encoding='') if form == 2 \
+                    else HTML(src, encoding='utf-8')
+            else:
+                t = HTML(src, encoding=enc)
+            r = t(**ns)
             if isinstance(r, bytes):
                 got = ['bytes', r.decode(enc)]
             elif isinstance(r, str):
